@@ -925,6 +925,7 @@ func checkC03(c *Ctx) {
 	c.Clause("every http.Server / http.Transport / net.Dialer / http.Client literal sets its timeouts to a non-zero value, with a zero-default guard where configuration may be 0")
 	c.Clause("every option of server.timeouts flows into a timeout that is set on a server, transport, dialer, handler or context (an option that is only validated bounds nothing)")
 	c.Clause("a failed exchange counts towards passive ejection only when its client had not gone away (test of the served request's context): hang-ups do not eject a healthy backend")
+	c.Clause("a wrapper whose Flush can deliver a recorded status checks the status range in WriteHeader: an invalid backend status fails on the handler's goroutine (recovered by the server), not on the reverse proxy's flush-timer goroutine (which kills the process)")
 	c.Clause("panics from forwarding are counted and re-raised by CircuitBreaker.Execute, not swallowed")
 	c.Clause("the response-writer wrappers a request is served through are created (or fully re-initialised) per request and their buffers start empty, so a response aborted mid-body cannot leak into a later one")
 	c.NotDecided("latency bounds; goroutine counts; that the request after a fault succeeds; behaviour of net/http under malformed input")
@@ -979,6 +980,7 @@ func checkC03(c *Ctx) {
 	c.timeoutOptionsApplied()
 	c.passiveThreshold()
 	c.requestContextIsClients()
+	c.deferredStatusValidated()
 	ws := c.wrappers()
 	c.Floor("wrapper-fresh-per-request", len(ws), 4, "ResponseWriter wrappers")
 	for _, w := range ws {
